@@ -55,6 +55,16 @@ structure D where
   post : Tid → Char := fun _ => '?'   -- which post point a thread in qPost stands at
   trace : String := ""
   multi : Bool := false
+  -- round 3: the property does not fix the order in which ONE unwait_all call
+  -- signals the waiters it found queued.  While such a call with >= 2 queued
+  -- waiters is between its first unlink and its system_unlock (a "window"),
+  -- schedule tokens naming one of those waiters are not executed (`t=`), and the
+  -- hand-offs of those waiters (`+t`) are printed as a sorted SET when the
+  -- window closes.  `lit` (cases `u`): tokens are taken literally, no window.
+  win : Option Tid := none
+  mem : List Tid := []
+  dfr : List Tid := []
+  lit : Bool := false
 
 def hookOf (d : D) (t : Tid) : Char :=
   if d.s.pc t = .qPost then d.post t else hookChar d.s t
@@ -79,6 +89,9 @@ def closure : Nat → D → D
     | none => d
     | some (p, s') =>
       if s'.pc p = .wSleep then closure fuel { d with s := s' }
+      else if d.win.isSome && d.mem.contains p then
+        closure fuel { d with s := s', pend := d.pend.filter (· != p),
+                              post := upd d.post p (postChar d.s p), dfr := p :: d.dfr }
       else closure fuel { d with s := s', pend := d.pend.filter (· != p),
                                   post := upd d.post p (postChar d.s p),
                                   trace := d.trace ++ s!"+{p} " }
@@ -90,21 +103,56 @@ def checkMulti (d : D) : D :=
     | x :: xs => xs.contains x || dup xs
   { d with multi := d.multi || dup ps }
 
-def grant (d : D) (t : Tid) : D :=
-  if t ≥ d.n || isDone d.s t || d.pend.contains t then { d with trace := d.trace ++ s!"{t}- " }
+def grantCore (d : D) (t : Tid) : D :=
+  let h := hookOf d t
+  let d1 :=
+    match step false d.s t with
+    | none => { d with pend := t :: d.pend, trace := d.trace ++ s!"{t}{h}! " }
+    | some s' =>
+      if s'.pc t = .wSleep then { d with s := s', pend := t :: d.pend, trace := d.trace ++ s!"{t}{h}! " }
+      else { d with s := s', post := upd d.post t (postChar d.s t), trace := d.trace ++ s!"{t}{h} " }
+  checkMulti (closure (2 * d.n + 2) d1)
+
+def atAllUnlink (s : State) (t : Tid) : Bool :=
+  match s.pc t with
+  | .uUnlink _ true => true
+  | _ => false
+
+/-- thread `t` is about to do the first unlink of an unwait_all that found >= 2
+    waiters: the window opens.  Before it does, every member that stands at its
+    flag test holding its own event mutex is run (it goes to sleep, flag clear),
+    so that the waker never blocks on a member inside the window. -/
+def openWin (d : D) (t : Tid) : D :=
+  if d.lit || d.win.isSome || !atAllUnlink d.s t || d.s.waitq.length < 2 then d
   else
-    let h := hookOf d t
-    let d1 :=
-      match step false d.s t with
-      | none => { d with pend := t :: d.pend, trace := d.trace ++ s!"{t}{h}! " }
-      | some s' =>
-        if s'.pc t = .wSleep then { d with s := s', pend := t :: d.pend, trace := d.trace ++ s!"{t}{h}! " }
-        else { d with s := s', post := upd d.post t (postChar d.s t), trace := d.trace ++ s!"{t}{h} " }
-    checkMulti (closure (2 * d.n + 2) d1)
+    let ms := d.s.waitq
+    let pre := (ms.mergeSort (· ≤ ·)).filter fun m => d.s.pc m == .wCv && !d.pend.contains m
+    let d0 := pre.foldl (fun d m => if d.multi then d else grantCore d m) d
+    { d0 with win := some t, mem := ms }
+
+/-- the waker reached its system_unlock: the window closes, the members' hand-offs are printed as a set -/
+def closeWin (d : D) : D :=
+  match d.win with
+  | none => d
+  | some w =>
+    if d.s.pc w == .uUnlock then
+      { d with win := none, mem := [], dfr := [],
+               trace := d.trace ++ String.join ((d.dfr.mergeSort (· ≤ ·)).map fun m => s!"+{m} ") }
+    else d
+
+def inWin (d : D) (t : Tid) : Bool := d.win.isSome && d.mem.contains t
+
+def grant (d : D) (t : Tid) : D :=
+  if inWin d t then { d with trace := d.trace ++ s!"{t}= " }
+  else if t ≥ d.n || isDone d.s t || d.pend.contains t then { d with trace := d.trace ++ s!"{t}- " }
+  else
+    let d := openWin d t
+    if d.multi then d else closeWin (grantCore d t)
 
 /-- schedule letter: the condition-variable wait of thread `t` returns spuriously
     (only a thread asleep in the condition variable can be affected) -/
 def spurGrant (d : D) (t : Tid) : D :=
+  if inWin d t then { d with trace := d.trace ++ s!"{t}~= " } else
   match spurious d.s t with
   | none => { d with trace := d.trace ++ s!"{t}~- " }
   | some s' => checkMulti (closure (2 * d.n + 2) { d with s := s', trace := d.trace ++ s!"{t}~ " })
@@ -119,7 +167,7 @@ def finish : Nat → D → D × String
     if d.multi then (d, "multipend") else
     let ts := List.range d.n
     if ts.all (isDone d.s) then (d, "done") else
-    match ts.find? (fun t => !isDone d.s t && !d.pend.contains t) with
+    match ts.find? (fun t => !isDone d.s t && !d.pend.contains t && !inWin d t) with
     | none => (d, "deadlock")
     | some t => finish fuel (grant d t)
 
@@ -127,10 +175,10 @@ def obsStr (o : Obs) : String :=
   match o with
   | .woke f => s!"w{f}," | .popped x => s!"g{x}," | .size n => s!"z{n}," | .saved c => s!"s{c},"
 
-def runCase (progs : List (List Op)) (q0 : List Int) (sched : List Nat) : String :=
+def runCase (progs : List (List Op)) (q0 : List Int) (sched : List Nat) (lit : Bool := false) : String :=
   let n := progs.length
   let s0 := init (fun t => progs.getD t []) (q0.map fun x => (99, x))
-  let d0 : D := { s := s0, n := n }
+  let d0 : D := { s := s0, n := n, lit := lit }
   let d1 := sched.foldl (fun d c => if d.multi then d else token d c) d0
   let d1 := { d1 with trace := d1.trace ++ "| " }
   let (d2, status) := finish 4000 d1
@@ -146,7 +194,7 @@ def runCase (progs : List (List Op)) (q0 : List Int) (sched : List Nat) : String
     String.join per ++ tail
   let flt := if d2.s.fault then " FAULT" else ""
   let uaf := if d2.s.uaf then " UAF" else ""
-  d2.trace ++ "| " ++ status ++ " | " ++ obs ++ flt ++ uaf
+  (if lit then "u " else d2.trace) ++ "| " ++ status ++ " | " ++ obs ++ flt ++ uaf
 
 def stepLine (_ : Unit) (line : String) : Unit × String :=
   match words line with
@@ -155,10 +203,25 @@ def stepLine (_ : Unit) (line : String) : Unit × String :=
     let q0 := if ini == "-" then [] else (ini.splitOn ",").filterMap String.toInt?
     let sc := if sched == "-" then [] else sched.toList.map fun c => c.toNat
     ((), runCase ps q0 sc)
+  | ["u", progs, ini, sched] =>
+    -- unordered: the schedule is taken literally (also inside unwait_all); only what
+    -- does not depend on the signalling order of unwait_all is printed
+    let ps := (progs.splitOn "/").map parseProg
+    let q0 := if ini == "-" then [] else (ini.splitOn ",").filterMap String.toInt?
+    let sc := if sched == "-" then [] else sched.toList.map fun c => c.toNat
+    ((), runCase ps q0 sc true)
   | ["e", progs, _, sched] =>
     let ps := (progs.splitOn "/").map fun p => (p.splitOn ",").filterMap Igris.C20.Ev.Drv.parseOp
     let sc := if sched == "-" then [] else sched.toList.map fun c => c.toNat
     ((), Igris.C20.Ev.Drv.runCase ps sc)
+  | ["p", "premain"] =>
+    -- the library used before main() (harness object with init_priority(101)): what the
+    -- sequential specification says about that fixed program
+    ((), "premain lock=2,1,0,1,0 save=1 fut=77 wq=0 q=7,1 ev=1,1,1,0 sem=0,1")
+  | ["k", "consts"] =>
+    -- constants the model embeds: initial value of safe_queue's semaphore (`init.sem`),
+    -- the lock count / saved count are C `int` (4 bytes, signed), `future` is an intptr_t
+    ((), s!"consts sem0={(init (fun _ => []) []).sem} counter=4 savecount=4 future=8 signed=1")
   | _ => ((), "bad-op")
 
 end Igris.C20.Drv
